@@ -483,6 +483,13 @@ def finish(ctx):
     for fid, (e, n) in sorted(known_hit.items()):
         print('KNOWN-FINDING: property=%s %s [%s; %d observation(s) this run]'
               % (ctx.prop, e['what'], fid, n))
+    if ctx.replay_case is None:
+        # a listed finding this tier / seed did not reach is still announced (one line per listed finding); it
+        # suppresses nothing, since suppression is by matching an observed violation only
+        for e in findings:
+            if e['id'] not in known_hit:
+                print('KNOWN-FINDING: property=%s %s [%s; 0 observation(s) this run - not reached by this tier/seed]'
+                      % (ctx.prop, e['what'], e['id']))
     rdir = os.path.join(OUT, 'replays', ctx.prop)
     seen = set()
     printed = 0
